@@ -38,7 +38,7 @@ class Deadlock(Exception):
 
 
 class Scheduler:
-    def __init__(self, choices=(), horizon=5000, watchdog=10.0):
+    def __init__(self, choices=(), horizon=5000, watchdog=10.0, line_root=None):
         self.choices = list(choices)
         self.ci = 0
         self.threads = []
@@ -52,6 +52,17 @@ class Scheduler:
         self.main = threading.Semaphore(0)
         self.deadlock = None
         self._abort = False
+        self.line_root = line_root     # when set: every source line executed under this path is a scheduling point
+
+    def _tracer(self, frame, event, arg):
+        if frame.f_code.co_filename.startswith(self.line_root):
+            return self._local_trace
+        return None
+
+    def _local_trace(self, frame, event, arg):
+        if event == "line" and not self._abort and self.controlled():
+            self.point(("line", frame.f_code.co_name, frame.f_lineno))
+        return self._local_trace
 
     # -- harness side
     def spawn(self, fn, name):
@@ -63,6 +74,9 @@ class Scheduler:
                 t.done = True
                 self.main.release()
                 return
+            if self.line_root:
+                import sys
+                sys.settrace(self._tracer)
             try:
                 t.res = fn()
             except _Abort:
@@ -208,7 +222,7 @@ def interpose(cls, names):
 
 
 def explore_schedules(harness, bound, max_exec=None, on_exec=None, horizon=5000, first_dev_range=None,
-                      deviation_cost="preemption"):
+                      deviation_cost="preemption", line_root=None):
     """DFS over schedules with at most ``bound`` preemptions.
 
     ``harness()`` must create a fresh world + scheduler-independent objects and
@@ -223,7 +237,7 @@ def explore_schedules(harness, bound, max_exec=None, on_exec=None, horizon=5000,
     while stack:
         prefix, _ = stack.pop()
         simenv.new_world()
-        s = Scheduler(prefix, horizon=horizon)
+        s = Scheduler(prefix, horizon=horizon, line_root=line_root)
         result = harness(s)
         s.run()
         out = result()
@@ -262,4 +276,35 @@ def explore_schedules(harness, bound, max_exec=None, on_exec=None, horizon=5000,
             base = [t[1] for t in s.trace[:i]]
             for alt in range(n - 1, 0, -1):
                 stack.append((base + [alt], cost))
+    return stats
+
+
+def explore_with_crosscheck(st, harness, bound, on_exec, case, line_bound=1):
+    """Attribute-level exploration at ``bound`` followed by the own-the-nondeterminism cross-check: the same
+    harness with every source line of the canopen package as a scheduling point (``line_bound`` preemptions) is
+    judged by the same oracle and must not reach an outcome label the attribute-level exploration has not seen
+    (otherwise some shared state is not instrumented: HARNESS-ERROR, not silence)."""
+    import os
+    import canopen
+
+    def labelled(**kw):
+        seen = set()
+        orig = st.outcome
+
+        def rec(k, n=1):
+            seen.add(str(k))
+            return orig(k, n)
+        st.outcome = rec
+        try:
+            stats = explore_schedules(harness, on_exec=on_exec, **kw)
+        finally:
+            del st.outcome
+        return stats, seen
+    stats, coarse = labelled(bound=bound)
+    root = os.path.dirname(os.path.abspath(canopen.__file__))
+    fine_stats, fine = labelled(bound=line_bound, line_root=root)
+    st.count("line_level_schedules", fine_stats["executions"])
+    if fine - coarse:
+        st.count("HARNESS:line-level exploration reached outcomes unseen at attribute level: %r (case %r)" %
+                 (sorted(fine - coarse)[:3], case))
     return stats
